@@ -213,3 +213,48 @@ func panicSite() string {
 func (r Result) String() string {
 	return fmt.Sprintf("%d records err=%v panic=%v", len(r.Records), r.Err, r.Panic)
 }
+
+// countingReader counts the bytes the library has taken from the reader.
+type countingReader struct {
+	r avro.Reader
+	n int
+}
+
+func (c *countingReader) Read(p []byte) (int, error) {
+	n, err := c.r.Read(p)
+	c.n += n
+	return n, err
+}
+
+func (c *countingReader) ReadByte() (byte, error) {
+	b, err := c.r.ReadByte()
+	if err == nil {
+		c.n++
+	}
+	return b, err
+}
+
+// ReadStopping is Read with a callback that fails at record failAt; it also reports how many bytes the library had
+// taken from the reader when the callback failed and how many when ReadFile returned.
+func ReadStopping(data []byte, mode int, t reflect.Type, failAt int, cbErr error) (res Result, atFail, atReturn int) {
+	defer func() {
+		if r := recover(); r != nil {
+			res.Panic = r
+			res.Site = panicSite()
+		}
+	}()
+	cr := &countingReader{r: NewReader(data, mode)}
+	n := 0
+	atFail = -1
+	res.Err = avro.ReadFile(cr, reflect.New(t).Elem().Interface(), func(val unsafe.Pointer, rb *avro.ResourceBank) error {
+		res.Records = append(res.Records, gv.DeepCopy(reflect.NewAt(t, val).Elem()))
+		if n == failAt {
+			n++
+			atFail = cr.n
+			return cbErr
+		}
+		n++
+		return nil
+	})
+	return res, atFail, cr.n
+}
